@@ -32,6 +32,19 @@ def heap_replay(prop, path, scratch):
             print("  the re-executed program is rejected by HeapTrace.tla at event %d" % res.get("states", 0))
             return 1
         return 2
+    if v.get("check") == "nativetrees":
+        # the conversions are replayed in their recorded order up to and including the failing one (state left by earlier ones matters)
+        out = scratch.path("nativetrees.json")
+        p = subprocess.run([vh, "nativetrees", "-prop", prop, "-seed", str(v.get("seed", 1)), "-n", str(int(v.get("index", 0)) + 1), "-out", out], capture_output=True, text=True)
+        if p.returncode == 1:
+            s = json.load(open(out))
+            print("VIOLATION property=%s replay=%s" % (prop, path))
+            print("  " + (s.get("violations") or [{}])[0].get("message", "")[:600])
+            return 1
+        if p.returncode == 0:
+            print("replay: the recorded sequence of conversions is handled correctly on this tree")
+            return 0
+        return 2
     p = subprocess.run([vh, "replayfile", "-file", path])
     return p.returncode if p.returncode in (0, 1) else 2
 
